@@ -11,6 +11,12 @@ junit = os.path.join(repo, 'target/nextest/pb/junit.xml')
 if '--no-run' not in sys.argv:
     if os.path.exists(junit): os.remove(junit)
     cmd = ['cargo','nextest','run','--workspace','--no-fail-fast','--tool-config-file','pb:/w/lib/nextest.toml','--profile','pb','--test-threads','8','--offline']
+    if '--fast' in sys.argv:
+        # skip test binaries none of whose tests is in the baseline's stable_pass set (they need the
+        # cvc5 solver and only time out); the comparison against stable_pass is unaffected
+        skip = ['properties', 'cedar_examples']
+        assert not any(t.split('::')[1] in skip and t.startswith('cedar-policy-symcc::') for t in sp)
+        cmd += ['-E', 'not (package(cedar-policy-symcc) & (' + ' | '.join('binary(%s)' % b for b in skip) + '))']
     p = subprocess.run(cmd, cwd=repo, stdout=subprocess.PIPE, stderr=subprocess.STDOUT, text=True)
     tail = '\n'.join(p.stdout.splitlines()[-8:])
     print(tail)
